@@ -55,11 +55,39 @@ def _num(x):
     return int(f) if f.denominator == 1 else ec.T(f)
 
 
+# ------------------------------------------------------------------------------------------------
+# second tie (DESIGN 2.6): Port.put / REDPort.put translated from the tree under test on every run
+# (vlib/translate.py, fail closed) into coq/Gen/Extracted_port.v; bridged to Elem/Port.v, Elem/Red.v by
+# coq/Elem/PortBridge.v; the bridging theorems are the obligations of Props/C09_Bridge.v.
+# The tables below are ALL the translator knows beyond numeric straight-line code.
+
+PORT_STATE = [("packets_received", "Z"), ("byte_size", "Z"), ("packets_dropped", "Z")]
+PORT_EFFECTS = [("FxStamp", "(k : option Z) (t : Q)"),        # packet.perhop_time[k] = t
+                ("FxStorePut", "")]                          # self.store.put(packet)
+PORT_READS = [("self.element_id", "element_id", "optZ"),      # None | str; the plugin encodes "" as 0 (same truthiness)
+              ("self.qlimit", "qlimit", "optZ"),
+              ("self.limit_bytes", "limit_bytes", "bool"),
+              ("self.debug", "debug", "bool"),
+              ("self.env.now", "now", "Q"),
+              ("packet.size", "size", "Z"),
+              ("self.store.items", "n_items", "len", "volatile")]
+PORT_FX = [("packet.perhop_time[_1] = _2", "FxStamp", ["optZ", "Q"], ("n_items",)),   # does not touch the store
+           ("self.store.put(packet)", "FxStorePut", [])]
+
+
+def extracted_port(repo):
+    import os
+    from vlib import translate as tr
+    spec = tr.FnSpec(os.path.join(repo, "onl", "netdev", "port.py"), "Port", "put", "gen_Port_put",
+                     reads=PORT_READS, effects=PORT_FX)
+    return tr.gen_module("onl/netdev/port.py: Port.put", "port_st", "g_", PORT_STATE, "port_fx", PORT_EFFECTS, [spec])
+
+
 class PortPart:
     name = "port"
     kinds = ["port", "redport", "portmon"]
     serves = ["C09", "C08"]
-    props_files = {"C09": ["Props/C09.v"], "C08": ["Props/C08_Port.v"]}
+    props_files = {"C09": ["Props/C09.v", "Props/C09_Bridge.v"], "C08": ["Props/C08_Port.v"]}
     coq_imports = ["From ONL Require Import Base.Cmp Elem.Packet Elem.StoreQ Elem.Port Elem.Red."]
     weight = 1
     nontrivial_rule = {
@@ -77,7 +105,10 @@ class PortPart:
                 "float rounding is outside the theorems: generated times, sizes, rates, thresholds and weights are dyadic so "
                 "every float the port computes is exact (the monitor recomputes everything with exact rationals)",
                 "what put() wrote into packet.perhop_time and what PortMonitor appended to sizes/sizes_byte are read from the "
-                "objects after each action"],
+                "objects after each action",
+                "vlib/translate.py (Python ast, fail closed; observation/effect tables in props/part_port.py) regenerates "
+                "coq/Gen/Extracted_port.v from the put() bodies of the tree under test before every build; the C09_gen_* theorems "
+                "(Props/C09_Bridge.v) bridge them to the hand-written model; print() calls are ignored"],
         "C08": ["packet identity = Python object identity recorded by the downstream tap"],
     }
     assumptions = {
@@ -90,6 +121,15 @@ class PortPart:
         "C08": ["self.out is set"],
     }
     partial = {"C09": [], "C08": []}
+
+    # ---- second tie: regenerate the translated bodies before the Coq build (fail closed) -----------
+    def pre_build(self, prop_id):
+        if prop_id != "C09":
+            return
+        import os
+        from vlib import framework as fw
+        from vlib import translate as tr
+        tr.write_if_changed(os.path.join(fw.COQ, "Gen", "Extracted_port.v"), extracted_port(fw.REPO))
 
     # ---- generation -----------------------------------------------------------------------------
     SIZES = {0: (10, 64, 100, 512, 1500), 8: (1, 2, 3, 4), 64: (2, 4, 8, 12, 16, 24),
